@@ -14,7 +14,7 @@ CHECKS = {
               'earlier result is diffed structurally against a deep copy taken when it entered the pool; failing histories are shrunk.'),
         design_ref='DESIGN.md §3 C07',
         note='Reference = literal substitution on terms; arguments of new() are type-variable-free as the property states.',
-        technique='history-based property testing (Hypothesis operation sequences) against a reference substitution + structural invariants',
+        technique='history-based property testing (Hypothesis operation sequences) against a reference substitution + structural invariants; the same histories driven by an atheris (libFuzzer) campaign',
     ),
     'C08': dict(
         category='exploration',
@@ -42,7 +42,7 @@ CHECKS = {
               'failures are shrunk by Hypothesis.'),
         design_ref='DESIGN.md §3 C10',
         note='One-directional as the property states: an empty result on a unifiable pair is counted, not judged.',
-        technique='constructive property-based testing (substitute-back oracle) with Hypothesis shrinking',
+        technique='constructive property-based testing (substitute-back oracle) with Hypothesis shrinking; the same strategy driven by an atheris (libFuzzer) campaign',
     ),
     'C12': dict(
         category='translation_validation',
@@ -113,7 +113,8 @@ CHECKS = {
         category='exploration',
         text=('Round trip through the real dump/load functions at every save point (G, E1, E2, O) of Hypothesis-configured pipelines in 4 '
               'languages: equal text under all four translators, equal results of erasure+overwriting under identical RNG, stable second '
-              'dump, equal reverse namespace lookups.'),
+              'dump, equal reverse namespace lookups; plus an other-process leg: save points are read back by a fresh interpreter with a '
+              'different PYTHONHASHSEED (the --replay situation) and must translate to the texts of the live object.'),
         design_ref='DESIGN.md §3 C13',
         note='Pickle bytes / object sharing are reported only; observable behaviour (1)-(4) is judged.',
         technique='round-trip property testing over generated programs (seed and Hypothesis-tape mode)',
@@ -141,7 +142,8 @@ CHECKS = {
         category='exploration',
         text=('Every object reachable from programs generated under all 16 switch combinations x 4 languages (seed mode and '
               'Hypothesis-tape mode) is inspected for use-site projections, contravariant projections, bounds, function type parameters '
-              'and declaration-site variance; stray objects are traced to their creation site by deterministic re-generation.'),
+              'and declaration-site variance; stray objects are traced to their creation site by deterministic re-generation. A command-line '
+              'leg parses every switch combination through src/args.py in a fresh interpreter and compares the resulting configuration.'),
         design_ref='DESIGN.md §3 C17',
         note='Type parameters of builtin constructors are scaffolding; the per-switch feature rates show the feature occurs when allowed.',
         technique='property-based testing of the generator over its configuration space with an object-graph invariant',
@@ -161,11 +163,12 @@ CHECKS = {
         text=('impl.is_subtype / is_assignable compared with an independent declarative relation (RM: JLS 4.5.1 / Kotlin containment on '
               'intervals, declaration-site variance, capture conversion) on (a) every ordered pair of exhaustively enumerated type pools '
               'over fixed small class tables per language, (b) Hypothesis-generated class tables with pairs related by construction, '
-              '(c) the queries the real generator issues. Soundness on all pairs, exactness + reflexivity + transitivity + bottom on the '
-              'exact fragment.'),
+              '(c) the queries the real generator issues, (d) every ordered pair of the language\'s builtin types, (e) instantiations with '
+              'class-scope type variables whose implementation-enumerated supertypes are judged, (f) a coverage-guided atheris campaign over '
+              'the strategy of (b). Soundness on all pairs, exactness + reflexivity + transitivity + bottom on the exact fragment.'),
         design_ref='DESIGN.md §3 C06, §2.3',
         note='Trusts RM (self-tested on algebraic laws and javac-confirmed facts); kotlinc/scalac/groovyc are not installed.',
-        technique='differential testing against a reference subtyping model: exhaustive small tables + Hypothesis constructive pairs',
+        technique='differential testing against a reference subtyping model: exhaustive small tables + Hypothesis constructive pairs + atheris (libFuzzer) campaign',
     ),
     'C16': dict(
         category='exploration',
@@ -233,7 +236,7 @@ def main():
         ],
         'checks': checks,
         'not_applicable': na,
-        'notes': 'All checks are property-based tests / fuzzers (Hypothesis, exhaustive enumeration, atheris in thorough tiers). See DESIGN.md.',
+        'notes': 'All checks are property-based tests / fuzzers (Hypothesis, exhaustive enumeration, atheris campaigns in C06/C07/C10). See DESIGN.md.',
     }
     with open(os.path.join(ROOT, 'MANIFEST.json'), 'w') as f:
         json.dump(m, f, indent=1)
